@@ -354,11 +354,12 @@ def linked_model(rng, cls, enc, nload=None):
         flags = rng.choice([5, 6, 4, 7])
         first = len(secs); mem_end = vaddr
         for t in range(k):
-            nob = (t == k - 1) and rng.random() < 0.3
+            nob = (t == k - 1) and rng.random() < 0.3 or (t == k - 2 and k >= 3 and rng.random() < 0.25) \
+                or (t == k - 1 and secs[-1]["sh_type"] == 8 and len(secs) > first)
             al = rng.choice([1, 4, 8, 16])
             if nob:
                 size = rng.choice([8, 64, 300])
-                addr = vaddr + (pos - seg_off); addr += (-addr) % al
+                addr = max(mem_end, vaddr + (pos - seg_off)); addr += (-addr) % al
                 secs.append(dict(sh_name=0, sh_type=8, sh_flags=3, sh_addr=addr, sh_offset=pos, sh_size=size, sh_link=0,
                                  sh_info=0, sh_addralign=al, sh_entsize=0, name=b".bss%d" % j, data=None))
                 mem_end = addr + size
